@@ -35,4 +35,13 @@ PROPS = {
         "level_note": "Trusted: Lean kernel; hand-written models Daemon/Median.lean, Daemon/PriceCache.lean; Go map iteration order abstracted (median proved order-independent). Partial: data-race freedom and the Go memory model are runtime behaviour outside any executable model (see DESIGN.md C20).",
         "trusted": ["models Daemon/Median.lean and Daemon/PriceCache.lean written by hand", "time.Time compared as integer nanoseconds (monotonic clock readings not modelled)"],
     },
+    "C09": {
+        "props_module": "LayerModel.Props.C09",
+        "families": [("calc", 3000, 100000), ("alloc", 3000, 100000), ("divvy", 4000, 150000)],
+        "gen": [],
+        "rule": "alloc: allocations with >= 2 reporters paid; divvy: reporter with 0 or >= 2 own token origins and non-zero commission rate inside [0,1]; calc: every case; distinct = distinct input lines",
+        "level_text": "Theorems over all rewards, reporter sets, powers, commission rates and origin lists: AllocateRewards' amounts sum to the reward exactly; DivvyingTips credits = pro-rata shares of the net reward + the commission exactly once (one, several or no own origins); no credit is negative for rates in [0,1]; counterexample theorems for the recorded finding (rates outside [0,1] accepted at creation) and for the pre-fix double commission. LegacyDec is modelled exactly (banker's rounding) and differential-tested through CalculateRewardAmount; the real AllocateRewards (mock sinks) and DivvyingTips (real store) are run on generated cases and compared with the Lean driver; an exact-rational proportionality monitor runs on the implementation's outputs.",
+        "level_note": "Trusted: Lean kernel; hand-written models Chain/Rewards.lean, Base/Dec.lean; the per-credit 10^-18 rounding bound is checked by the monitor on every generated case but not yet a theorem (partial); TBR selection in SetAggregatedReport is covered by the chain-mode properties (C03/C04), not here.",
+        "trusted": ["models Chain/Rewards.lean, Base/Dec.lean written by hand", "mock reporter/bank keepers capture AllocateTip calls in the alloc family"],
+    },
 }
